@@ -78,6 +78,9 @@ def check_case(r, kind, case):
         r.merge(coder.w_long(('C05', case.get('name', '?'), case['k'], case['G'], case['start'], case['fast'], T, [int(c) for c in case['bits']])))
     elif kind == 'rt':
         coder.replay_rt(r, 'C05', case)
+    elif kind == 'tabmod':
+        G = case['G']
+        coder.explore_class(r, 'C05', case['k'], G, case['start'], O.reach(G, case['start']), [([case['table']], case['Lmax'], True)])
     elif kind == 'diff':
         coder.diff_case(r, 'C05', case['k'], case['G'], case['G2'], case['start'], [int(c) for c in case['bits']])
     elif kind == 'walk':
